@@ -18,6 +18,7 @@ func init() {
 		Explanation: "Decided (structural necessary conditions, packages plainmap, fsi18loader, i18mem): R1 the constant used to join keys when flattening (recursive map and JSON), to split them when rebuilding and to find the nesting point when emitting JSON is one and the same one-character string; R2 in the JSON object walk a string leaf reaches the result map only as the result of an unescaping function (jsonparser.ParseString/Unescape, strconv.Unquote, encoding/json) on its nil-error edge — never the raw bytes; number leaves are stored raw; R3 the emitter's escaper delegates to encoding/json (not to Go-syntax quoting), and every non-constant piece of the emitted text is either an escaped string, a recursive emission, the text so far or indentation; R4 the translation table is only touched under its RW mutex, and it is never replaced wholesale from a copy taken in an earlier critical section (read-copy-publish must be one hold); R5 the loader's callback returns read and parse errors and hands the parsed map to Set; Load runs, waits, then returns the loop's error list; R6 the leaf switch recurses on objects and stores exactly string and number leaves. " +
 			"R7 the walker behind fsi18loader.Load looks at entry names only to recognise '.' and '..' and leaves a listing loop early only with a non-nil error (no translation file is skipped by name). " +
 			"Added in round 6: R3 also judges pieces written with WriteString into a strings.Builder; R5 follows the store method when it is passed down as a bound method value (i18.Set / i18.SetDefault); R8 a traversal mark set by the flatten worker is removed again on every path (an ever-growing visited set rejects a finite map that reaches one sub-map under two keys). " +
+			"Added in round 7: R5 follows the loader callback into exported functions of its package; R9 every return of I18Mem.Translate follows a read of the translation table - a verdict from a second store consulted first (a negative cache) is not ordered with Set by the table's lock. " +
 			"NOT decided: that flatten/rebuild and write/read are mutually inverse for all maps (round-trip equalities); jsonparser's and encoding/json's own correctness.",
 	})
 }
@@ -425,6 +426,36 @@ func rulesC20(c *Ctx) {
 		c.Floor("R4", n4, 2)
 		st, fi := fieldIndex(memT, "translates")
 		_, gi := fieldIndex(memT, "muTranlsates")
+		// R9 every answer of Translate comes after a look at the table itself: a verdict taken from a
+		// second store (a negative cache consulted first) is not ordered with Set by the table's mutex
+		if tr := c.P.Func("i18n/i18mem", "I18Mem", "Translate"); tr == nil {
+			c.Bad("R9", "i18mem.(*I18Mem).Translate", 0, "anchor not found")
+		} else {
+			isLoad := func(in ssa.Instruction) bool {
+				u, ok := in.(*ssa.UnOp)
+				if !ok || u.Op != token.MUL {
+					return false
+				}
+				fa, ok := u.X.(*ssa.FieldAddr)
+				return ok && fa.Field == fi && structOf(fa.X.Type()) == st
+			}
+			isEv := func(in ssa.Instruction) bool {
+				if isLoad(in) {
+					return true
+				}
+				if ci := callInfo(in, nil, 0); ci != nil && ci.Kind == "call" && ci.Static != nil && ci.Static.Pkg == tr.Pkg && ci.Static.Blocks != nil {
+					return len(MustPass(ci.Static, nil, isLoad)) == 0
+				}
+				return false
+			}
+			bad := MustPass(tr, nil, isEv)
+			at := tr.Pos()
+			if len(bad) > 0 {
+				at = orPos(bad[0].Instr.Pos(), tr.Pos())
+			}
+			c.Check(len(bad) == 0, "R9", "Translate answers from the translation table", at, "every return follows a read of the table (under its lock, R4)",
+				"Translate can answer without having looked at the translation table (a second store decides first): the answer is not ordered with Set/SetDefault by the table's lock — a key that was just defined keeps being reported unknown")
+		}
 		for _, f := range fns {
 			var stores, loads []ssa.Instruction
 			var base ssa.Value
@@ -521,6 +552,18 @@ func rulesC20(c *Ctx) {
 		c.Bad("R5", "translation file callback", load.Pos(), "cannot find the function stored into LoopData.OnFile")
 	} else {
 		group := append([]*ssa.Function{onFile}, privateHelpersOf(onFile)...)
+		// the callback's work may sit in an exported building block of the same package (LoadFile)
+		for _, h := range reachableSamePkg(onFile, 2) {
+			dup := false
+			for _, g := range group {
+				if g == h {
+					dup = true
+				}
+			}
+			if !dup {
+				group = append(group, h)
+			}
+		}
 		n := 0
 		// propagates: the error of call (in g) is returned by g on its non-nil edge, and so on up to onFile
 		var propagates func(g *ssa.Function, call *ssa.Call, depth int) bool
